@@ -21,6 +21,7 @@
      thomas_backward_error_float_uf          gradual underflow allowed in the right-hand-side part: residual r_i + dr_i,
                                              |dr_i| <= 2^-1075 (1 + 2|a_i| + 3|beta_i|)
      thomas_dominant_float_uf_partial        dominant + scaled: finite answer -> backward stable up to |dr_i| <= 2^-1075 (1 + 11|b_i|)
+     thomas_dominant_float_residual          the same conclusion as a row-wise residual bound (the quantity the oracle measures)
      thomas_dominant_float                   hypotheses ON THE DATA ONLY (entries finite, 2^-300 <= |b_i| <= 2^300, off-diagonals 0 or
                                              >= 2^-300, |r_i| <= 2^300, 2(|a_i|+|c_i|) <= |b_i|): solved, every x_i finite, backward stable
                                              up to 2^-1075 (1 + 11|b_i|) per row -- no overflow anywhere, underflow accounted for
@@ -462,6 +463,82 @@ Example thomas_dominant_float_nonvacuous_all_n : forall n, (1 <= n)%nat ->
   (forall i, (i < tn t)%nat -> ffinite (nth i r 0%float) /\ (Rabs (FR (nth i r 0%float)) <= bpow radix2 300)%R)) /\
   exists x, tsolve (A := AF) t r = Ok x /\ length x = n /\ forall i, (i < n)%nat -> ffinite (nth i x 0%float).
 Proof. intros n Hn. cbv zeta. split; [exact (lapT_hyps n Hn)|exact (lapT_solved n Hn)]. Qed.
+
+(* the same in the form a numerical oracle measures: the residual of the computed solution, row by row; with
+   |a_i| + |b_i| + |c_i| <= ||T||_inf it is at most 14 u ||T||_inf ||x||_inf + 2^-1075 (1 + 11|b_i|), u = 2^-53 = 1.1e-16
+   (driver/c05.py allows 1e-11 (||T|| ||x|| + ||r||), about 6400 times more) *)
+Theorem thomas_dominant_float_residual : forall (t : tridiag AF) (r : list pfloat),
+  wfT t -> (1 <= tn t)%nat -> length r = tn t ->
+  ((forall i, (i < tn t)%nat -> ffinite (nth i (tmain t) 0%float)) /\
+   (forall i, (i + 1 < tn t)%nat -> ffinite (nth i (tsub t) 0%float) /\ ffinite (nth i (tsup t) 0%float))) ->
+  ((forall i, (i < tn t)%nat -> (Rabs (FR (nth i (tmain t) 0%float)) <= bpow radix2 300)%R) /\
+   (forall i, (i + 1 < tn t)%nat ->
+      (FR (nth i (tsub t) 0%float) = 0%R \/ (bpow radix2 (-300) <= Rabs (FR (nth i (tsub t) 0%float)))%R) /\
+      (FR (nth i (tsup t) 0%float) = 0%R \/ (bpow radix2 (-300) <= Rabs (FR (nth i (tsup t) 0%float)))%R))) ->
+  (forall i, (i < tn t)%nat -> (bpow radix2 (-300) <= Rabs (FR (nth i (tmain t) 0%float)))%R) ->
+  (forall i, (i < tn t)%nat ->
+     (2 * (Rabs (FR (nth i (0%float :: tsub t) 0%float)) + Rabs (FR (nth i (tsup t) 0%float)))
+      <= Rabs (FR (nth i (tmain t) 0%float)))%R) ->
+  (forall i, (i < tn t)%nat -> ffinite (nth i r 0%float) /\ (Rabs (FR (nth i r 0%float)) <= bpow radix2 300)%R) ->
+  exists x, tsolve (A := AF) t r = Ok x /\ length x = tn t /\
+    (forall i, (i < tn t)%nat -> ffinite (nth i x 0%float)) /\
+  forall i, (i < tn t)%nat ->
+    (Rabs (FR (nth i r 0%float)
+           - (FR (nth i (0%float :: tsub t) 0%float) * FR (nth i (0%float :: x) 0%float)
+              + FR (nth i (tmain t) 0%float) * FR (nth i x 0%float)
+              + FR (nth i (tsup t) 0%float) * FR (nth (i + 1) x 0%float)))
+     <= u64 * (3 * Rabs (FR (nth i (0%float :: tsub t) 0%float)) * Rabs (FR (nth i (0%float :: x) 0%float))
+               + (5 * Rabs (FR (nth i (tmain t) 0%float)) + 9 * Rabs (FR (nth i (0%float :: tsub t) 0%float)))
+                 * Rabs (FR (nth i x 0%float))
+               + 5 * Rabs (FR (nth i (tsup t) 0%float)) * Rabs (FR (nth (i + 1) x 0%float)))
+        + eta64 * (1 + 11 * Rabs (FR (nth i (tmain t) 0%float))))%R.
+Proof. intros t r. exact (thomas_dominant_float_residual_lemma t r). Qed.
+Check thomas_dominant_float_residual : forall (t : tridiag AF) (r : list pfloat),
+  wfT t -> (1 <= tn t)%nat -> length r = tn t ->
+  ((forall i, (i < tn t)%nat -> ffinite (nth i (tmain t) 0%float)) /\
+   (forall i, (i + 1 < tn t)%nat -> ffinite (nth i (tsub t) 0%float) /\ ffinite (nth i (tsup t) 0%float))) ->
+  ((forall i, (i < tn t)%nat -> (Rabs (FR (nth i (tmain t) 0%float)) <= bpow radix2 300)%R) /\
+   (forall i, (i + 1 < tn t)%nat ->
+      (FR (nth i (tsub t) 0%float) = 0%R \/ (bpow radix2 (-300) <= Rabs (FR (nth i (tsub t) 0%float)))%R) /\
+      (FR (nth i (tsup t) 0%float) = 0%R \/ (bpow radix2 (-300) <= Rabs (FR (nth i (tsup t) 0%float)))%R))) ->
+  (forall i, (i < tn t)%nat -> (bpow radix2 (-300) <= Rabs (FR (nth i (tmain t) 0%float)))%R) ->
+  (forall i, (i < tn t)%nat ->
+     (2 * (Rabs (FR (nth i (0%float :: tsub t) 0%float)) + Rabs (FR (nth i (tsup t) 0%float)))
+      <= Rabs (FR (nth i (tmain t) 0%float)))%R) ->
+  (forall i, (i < tn t)%nat -> ffinite (nth i r 0%float) /\ (Rabs (FR (nth i r 0%float)) <= bpow radix2 300)%R) ->
+  exists x, tsolve (A := AF) t r = Ok x /\ length x = tn t /\
+    (forall i, (i < tn t)%nat -> ffinite (nth i x 0%float)) /\
+  forall i, (i < tn t)%nat ->
+    (Rabs (FR (nth i r 0%float)
+           - (FR (nth i (0%float :: tsub t) 0%float) * FR (nth i (0%float :: x) 0%float)
+              + FR (nth i (tmain t) 0%float) * FR (nth i x 0%float)
+              + FR (nth i (tsup t) 0%float) * FR (nth (i + 1) x 0%float)))
+     <= u64 * (3 * Rabs (FR (nth i (0%float :: tsub t) 0%float)) * Rabs (FR (nth i (0%float :: x) 0%float))
+               + (5 * Rabs (FR (nth i (tmain t) 0%float)) + 9 * Rabs (FR (nth i (0%float :: tsub t) 0%float)))
+                 * Rabs (FR (nth i x 0%float))
+               + 5 * Rabs (FR (nth i (tsup t) 0%float)) * Rabs (FR (nth (i + 1) x 0%float)))
+        + eta64 * (1 + 11 * Rabs (FR (nth i (tmain t) 0%float))))%R.
+Print Assumptions thomas_dominant_float_residual.
+Example thomas_dominant_float_residual_nonvacuous :   (* same instances as thomas_dominant_float_nonvacuous *)
+  let t := exT_t in let r := exU_r in
+  wfT t /\ (1 <= tn t)%nat /\ length r = tn t /\
+  ((forall i, (i < tn t)%nat -> ffinite (nth i (tmain t) 0%float)) /\
+   (forall i, (i + 1 < tn t)%nat -> ffinite (nth i (tsub t) 0%float) /\ ffinite (nth i (tsup t) 0%float))) /\
+  ((forall i, (i < tn t)%nat -> (Rabs (FR (nth i (tmain t) 0%float)) <= bpow radix2 300)%R) /\
+   (forall i, (i + 1 < tn t)%nat ->
+      (FR (nth i (tsub t) 0%float) = 0%R \/ (bpow radix2 (-300) <= Rabs (FR (nth i (tsub t) 0%float)))%R) /\
+      (FR (nth i (tsup t) 0%float) = 0%R \/ (bpow radix2 (-300) <= Rabs (FR (nth i (tsup t) 0%float)))%R))) /\
+  (forall i, (i < tn t)%nat -> (bpow radix2 (-300) <= Rabs (FR (nth i (tmain t) 0%float)))%R) /\
+  (forall i, (i < tn t)%nat ->
+     (2 * (Rabs (FR (nth i (0%float :: tsub t) 0%float)) + Rabs (FR (nth i (tsup t) 0%float)))
+      <= Rabs (FR (nth i (tmain t) 0%float)))%R) /\
+  (forall i, (i < tn t)%nat -> ffinite (nth i r 0%float) /\ (Rabs (FR (nth i r 0%float)) <= bpow radix2 300)%R).
+Proof.
+  cbv zeta. destruct exT_conditions as (W & Hn & _). destruct exT_data as (HF & HS & _).
+  destruct exT_data_strong as (_ & Bl & SD). destruct exU_underflows as (Fr & _).
+  split; [exact W|]. split; [exact Hn|]. split; [reflexivity|]. split; [exact HF|]. split; [exact HS|]. split; [exact Bl|].
+  split; [exact SD|exact Fr].
+Qed.
 
 (* why the pivots must be finite: sub = [-2^1023], main = [1; 2^1023], sup = [1], r = [1; 1].  beta_1 = 2^1023 + 2^1023 = +inf,
    y_1 = 2^1023 / inf = 0, and solve answers the FINITE vector [1; 0]; the true solution is close to [1/2; 1/2]. *)
